@@ -134,6 +134,7 @@ def run(ctx):
         ctx.violation(key, "full build keeps an unconfined fallback: `%s` in %d configuration(s), e.g. %s%s" % (
             lst[0][1], len(cf), cf[0], "" if lst[0][2] else " (copy of a rule of another source profile)"),
             {"configs": cf, "statement": lst[0][1]})
+    ctx.require(total >= 100 and (rewritten >= total or agg), "%d source rules with r+PUx/r+Ux, %d rewritten counterparts observed" % (total, rewritten))
     ctx.extra.update({"source_rules": total, "configurations": len(cfgs), "rewritten_observed": rewritten,
                       "counterpart_not_found": unmatched})
     if unmatched:
